@@ -128,6 +128,8 @@ class Analysis:
 
     def _direct_mutation_stmts(self, fn: loader.Func) -> Set[int]:
         out: Set[int] = set()
+        if fn.cls is None or not self.sm._is_state_class(fn.cls.qualname):
+            return out
         aliases: Set[str] = set()
         for s in A.stores(fn):
             if isinstance(s.target, ast.Name) and isinstance(s.node, (ast.Assign, ast.NamedExpr)):
